@@ -394,6 +394,21 @@ def _run_child(plan):
                             add("C19/extended-parsed-script-serialises-stale", {"clause": "round-trip", "via": "parsed-object"},
                                 {"wire": wi, "message": n_ok})
                             break
+                        # HISTORY: the caller owns what parse returned and may edit it in place; a later parse of the
+                        # same bytes (and of every other message) must not see that edit
+                        try:
+                            got.cmds.append(0x75)
+                            if len(got.cmds) > 1:
+                                got.cmds[0] = 0x6a
+                            second = list(Script.parse(Wire(data[before:ref_end])).cmds)
+                        except Exception as e:
+                            second = type(e).__name__
+                        stats["reparsed_after_edit"] = stats.get("reparsed_after_edit", 0) + 1
+                        if second != ref_cmds:
+                            add("C19/parse-depends-on-earlier-parse", {"clause": "round-trip", "via": "edited-parsed-object"},
+                                {"wire": wi, "message": n_ok, "second_parse": _show(second) if isinstance(second, list) else second,
+                                 "reference": _show(ref_cmds)})
+                            break
             if fault is None:
                 # fault-free: equals what was written and re-serialises to the identical bytes
                 if w["kind"] == "script":
@@ -505,6 +520,10 @@ class WireSim(Simulator):
                                     nm = list(w["msgs"])
                                     nm[mi] = m[:ci] + [{"d": c["d"][:2 * newlen]}] + m[ci + 1:]
                                     yield with_wires(wires[:i] + [dict(w, msgs=nm)] + wires[i + 1:])
+
+    def secondary_backends(self, prop, tier):
+        # interpreter configuration: the same simulator under `python -O` (assert statements stripped)
+        return [("ecdsa-O", 400, None)] if tier == "quick" else [("ecdsa-O", None, 60)]
 
     def quick_runs(self, prop):
         return int(os.environ.get("VERIF_C19_RUNS", "4800"))
